@@ -33,6 +33,9 @@ var purePkgs = map[string]bool{
 	"google.golang.org/grpc/internal/status": true,
 	"github.com/golang/protobuf/proto":       true,
 	"regexp":                                 true,
+	// value helpers of the standard library (they read their arguments and build new values; the in-place ones — Sort,
+	// Reverse, Delete, Insert, Copy, Clear — write only memory the caller hands them, which the store rule sees at the caller)
+	"slices": true, "maps": true, "cmp": true, "iter": true, "math/bits": true, "unicode/utf16": true, "container/heap": false,
 }
 
 var pureExtRefs = map[string]bool{
